@@ -226,7 +226,6 @@ func (c *debConductor) await() string {
 	got = c.observe()
 	if c.stall == "" {
 		c.stall = "watchdog"
-		atomic.AddInt64(&failures, 1)
 		os.WriteFile(dumpPath("stall", c.label), []byte(want+" expected, observed "+got+"\n"+stacks()), 0o644)
 	}
 	return got
@@ -256,7 +255,6 @@ func (c *debConductor) act(a string) bool {
 		go func() { c.d.Stop(); close(done) }()
 		if !closedWithin(done, watchdogFull) {
 			c.stall = "stop-hung"
-			atomic.AddInt64(&failures, 1)
 			os.WriteFile(dumpPath("hang", c.label), []byte("refreshDebouncer.stop\n"+stacks()), 0o644)
 			return true
 		}
@@ -381,6 +379,12 @@ func runDebLabelled(label string, fixed []string, r *vh.Rng, maxActs int) (strin
 	stopret, exited := 1, 0
 	if c.stall == "stop-hung" {
 		stopret = 0
+	}
+	if c.stall != "" {
+		atomic.AddInt64(&failures, 1)
+		if !c.mStopped && c.stall != "stop-hung" {
+			go c.d.Stop() // a stalled schedule is wound up too
+		}
 	}
 	if c.mStopped || c.stall != "" {
 		if patient(watchdogFull, profiled(c.flusherGone)) {
